@@ -425,6 +425,23 @@ def drv_errors(case):
         errs2 = m.errors()                 # validation of an already validated object
         out.append({"op": "errors", "model": proj.node(m, tok), "errs": sorted({str(getattr(x, "value", x)) for x in errs2}),
                     "after": proj.node(m, tok), "again": True})
+        # what reduce() / assume() hand out, validated next to a freshly built equal copy of one of its sub-propositions
+        if errs == []:
+            for derive in (lambda: _mk(case).reduce(), lambda: _mk(case).assume({})):
+                try:
+                    r = derive()
+                    if proj.is_var(r): continue
+                    sub = next((k for k in r.propositions if not proj.is_var(k)), None)
+                    if sub is None: continue
+                    fresh = B.from_node(proj.node(sub, tok), tok)
+                    mix = pg.All(r, fresh, variable="MIXTOP")
+                    me = mix.errors()
+                    out.append({"op": "errors", "model": proj.node(mix, tok), "errs": sorted({str(getattr(x, "value", x)) for x in me}),
+                                "after": proj.node(mix, tok), "derived": True})
+                except (KeyboardInterrupt, SystemExit):
+                    raise
+                except BaseException:
+                    pass
     return out
 
 # ----------------------------------------------------------------------------- C04
